@@ -2186,7 +2186,7 @@ static int dfs_copy(vnaproperty_t **destination, const vnaproperty_t *source)
  */
 int vnaproperty_copy(vnaproperty_t **destination, const vnaproperty_t *source)
 {
-    (void)vnaproperty_delete(destination, ".");
+    _vnaproperty_delete_all(destination);
     return dfs_copy(destination, source);
 }
 
